@@ -40,7 +40,7 @@ CHECKS = {
     "C14": dict(
         module="checks.c14",
         engine="sim_sr",
-        text="The library's random draw is put behind a seam the simulator owns: torch.randint is replaced by an enumerator so that one quantise call evaluates every input under every possible draw, turning the probability statement into an exact count compared with an exact rational model of the format; a seam monitor checks the request (range, shape, dtype, count) and a keyed per-element draw checks independence. Exploration over (format, srbits, input class); the draw space itself is enumerated exhaustively per input when 2^srbits <= 2^20 and sampled otherwise.",
+        text="The library's random draw is put behind a seam the simulator owns: torch.randint is replaced by an enumerator so that one quantise call evaluates every input under every possible draw, turning the probability statement into an exact count compared with an exact rational model of the format; a seam monitor checks the request (range, shape, dtype, count) and a keyed per-element draw checks independence (contiguous, transposed, rank-3, expanded and requires-grad inputs) and that quantise_fwd's value and quantise_bwd's gradient are the same rounding under the same draws, for up to three format objects sharing (E, M) in one process. Exploration over (format, srbits, input class); the draw space itself is enumerated exhaustively per input when 2^srbits <= 2^20 and sampled otherwise.",
         note="Trusts torch integer/bit ops and float32 arithmetic; the format model is independent exact rational arithmetic; float32 inputs only (other dtypes are C13's territory).",
         technique="deterministic simulation of the random source: exhaustive enumeration of the library's draw at the torch.randint seam, request-log monitor, exact rational reference model",
         ref="DESIGN.md §3 C14",
@@ -48,7 +48,7 @@ CHECKS = {
     "C15": dict(
         module="checks.c15",
         engine="sim_quant",
-        text="Generated programs are transformed with simulate_format/simulate_fp8 and driven through short histories (repeated calls, Dynamo resets, failing calls, neighbouring transformed modules) in a fresh simulated process per run; the random source is a logged order-independent PRF so the value set, rounding mode and random-bit count of the inserted quantisers are observed at the seam; outputs and all gradients are compared bitwise with a hand-quantised reference interpreter. Exploration level.",
+        text="Generated programs are transformed with simulate_format/simulate_fp8 and driven through short histories (repeated calls, Dynamo resets, failing calls, neighbouring transformed modules) in a fresh simulated process per run; the random source is a logged order-independent PRF so the value set, rounding mode and random-bit count of the inserted quantisers are observed at the seam; outputs and all gradients are compared bitwise with a hand-quantised reference interpreter, and the transformed module must tie exactly the parameters the original ties. Exploration level.",
         note="TorchDynamo/AOT run as real opaque components; the reference interpreter uses the library's FPFormat.quantise as the quantiser (its value set is C13/C14's business) but its own straight-through wrappers, operand selection and gradient placement; recorded findings D7 (torch.nn root module) and D9 (lossless gradients equal to rounding only) are probed deterministically and printed as KNOWN-FINDING.",
         technique="deterministic simulation: fork-per-run worlds, PRF random seam with request log, seeded call/reset/fault histories, differential reference interpreter",
         ref="DESIGN.md §3 C15",
@@ -56,7 +56,7 @@ CHECKS = {
     "C16": dict(
         module="checks.c16",
         engine="sim_unitscale",
-        text="1-3 generated programs share one simulated process; unit_scale / call / failing call / reset operations on them are interleaved by a seeded scheduler (the rewrite depends on process-global Dynamo state), and every successful call is compared bitwise on outputs and all gradients with a User-Guide recipe interpreter of the same program. Exploration level.",
+        text="1-3 generated programs share one simulated process; unit_scale / call / failing call / reset operations on them are interleaved by a seeded scheduler (the rewrite depends on process-global Dynamo state), and every successful call is compared bitwise on outputs and all gradients with a User-Guide recipe interpreter of the same program; re-initialisation and the parameter-sharing structure of the returned copy are checked after every unit_scale. Exploration level.",
         note="TorchDynamo runs as a real opaque component; the recipe interpreter uses the library's U.* functions as building blocks (their scale factors are C01-C05's business); generated programs keep the recipe unambiguous (see DESIGN.md §3 C16); recorded findings D4 (replace key leaks process-wide) and D10 (nn.Softmax) are probed deterministically.",
         technique="deterministic simulation: seeded interleaving of transform/call/fault operations over modules sharing process-global state, reference recipe interpreter",
         ref="DESIGN.md §3 C16",
@@ -64,7 +64,7 @@ CHECKS = {
     "C17": dict(
         module="checks.c17",
         engine="sim_transforms",
-        text="A fresh simulated process per run holds a base module and a growing set of derived modules; seeded histories of derive (any chain order) / call / call-original / sync / perturb / drop with injected failing calls, Dynamo resets and first-call interruptions are checked after every operation for: original untouched, no shared storage, repeatability, order independence, agreement with hand-written twins, a derived module carrying the state of the module it was derived from, and recovery after faults. Exploration level.",
+        text="A fresh simulated process per run holds a base module and a growing set of derived modules; seeded histories of derive (any chain order) / call / call-original / sync / perturb / drop with injected failing calls, Dynamo resets and first-call interruptions are checked after every operation for: original untouched, no shared storage, repeatability, order independence, agreement with hand-written twins, a derived module carrying the state and the parameter-sharing structure of the module it was derived from, and recovery after faults. Exploration level.",
         note="TorchDynamo/AOT/Inductor run as real opaque components whose internal scheduling is not controlled; the simulator controls the operations issued to them, their knobs and resets; exceptions are injected only where a synchronous exception can occur (not at inert lines, not inside finally/except bodies, not at the re-visit of a with header); recorded finding D16 (recompile-limit fallback with more than 8 live modules) is probed deterministically.",
         technique="deterministic simulation: fork-per-run worlds, seeded transform/call histories with exception injection at first-call sites (sys.settrace), Dynamo reset and failing-call faults, reference twins, shrinking + replay",
         ref="DESIGN.md §3 C17",
